@@ -510,6 +510,7 @@ class Verifier:
             rep.failed.extend([ob] if ob.status != 'discharged' else [])
         E.on_require = on_require
         E.cur_con, E.cur_fn = con, fn
+        E.class_snapshot = list(E.classes.known())     # the candidate classes are fixed for the whole exploration
         E.unfold_only = con.opts.get('unfold')
         install_contracts(E)
         try:
